@@ -709,7 +709,7 @@ fn main() {
     check.assume("one current_thread runtime per case (FIFO wake order); 'promptly' = within 1 s virtual of the side's termination, termination within 1.5 s + 2 RTT of the trigger");
     check.assume("the injected protocol error uses the verification hook Connection::verif_send_reliable_frame to play a misbehaving authenticated peer; the receiving endpoint is unmodified");
     check.max_shrink_iters = 120;
-    let n = check.pick(3_000, 200_000);
+    let n = check.pick(6_000, 200_000);
     check.stage("close-scenarios", n, 16, case_strategy, oracle);
     check.finish();
 }
